@@ -1283,7 +1283,7 @@ def gen_from_fn(lhs, rhs, ctx):
     def gen():
         yield from lhs
 
-        made = lhs
+        made = list(lhs)  # never grow the caller's list
 
         while True:
             next_item = safe_apply(rhs, *made, ctx=ctx)
